@@ -24,7 +24,8 @@ for d in sorted(os.listdir(os.path.join(V, 'seeded'))):
         m = re.search(rx, txt)
         return m.group(1).strip() if m else None
     suite = grab(r'SUITE with change:\s*(.*)', conf)
-    dw = grab(r'DEMO with change:\s*(.*)', conf)
+    dw = grab(r'DEMO with change:\s*((?:.*\n)*?.*)(?=\nDEMO without change|\Z)', conf)
+    dw = ' / '.join(x.strip() for x in (dw or '').split('\n') if x.strip())[:300] or None
     dwo = grab(r'DEMO without change:\s*(.*)', conf)
     pid = d.split('_')[0]
     exit_code = grab(r'CHECK %s exit=(\d+)' % pid, det)
